@@ -1,15 +1,17 @@
 import AdfObdd.ServerGraph
 import AdfObdd.ServerProofs
 import AdfObdd.StoreCanon
+import AdfObdd.ServerAnswers
 /-! # C16 — the web service returns the library's answers through its storage round trip
 
     Theorems about the executable models the correspondence runs compare with the real server:
     the graph DTO builder (`ServerAdf.graphOf` = `DoubleLabeledGraph::from_adf_and_ac`), and the
     task life cycle of `ServerM` (parse error stored and shown as an error; running entry removed
     when the blocking part ends — with the `RunningGuard` of the D7 repair also when it panics).
-    That the *answers* are the definitional ones is C01–C05/C09/C14 for the library models used
-    here; at run time every stored answer is judged against the brute-force semantics
-    (`Spec/WebSem.lean`) by the `result` / `taskdone` monitors. -/
+    That the *answers* are the definitional ones is section 6 (`stored_answers_exact` and its
+    variants, `ServerAnswers.lean`): the composition of the storage round trip (C14), `from_parser`
+    (C09) and C01–C05; at run time every stored answer is in addition judged against the
+    brute-force semantics (`Spec/WebSem.lean`) by the `result` / `taskdone` monitors. -/
 namespace C16
 open ServerM ServerAdf
 
@@ -234,5 +236,174 @@ example : ((runAll Eerr {} (histErr ++ [.finish 0 0, .write 0 0])).1.db.problems
   decide
 example : (ServerM.step Eerr (runAll Eerr {} (histErr ++ [.finish 0 0, .write 0 0])).1 ⟨0, .solve 5 .ground⟩).2 =
     ⟨400, .keep, .msg (.couldNotParse .parseError)⟩ := by decide
+
+/-! ## 6. the stored answers are the definitional ones
+
+`SrvA.solveAdfF fuel` is the solve task (`rebuild` of the stored node list, the strategy = a CLI
+section, the graphs) with the fuel-based model `SM.ngSearch .simple fuel` of `stable_nogood(Simple)`;
+for the five other strategies it is `ServerAdf.solveAdf`, the function the driver runs
+(`solve_model_agrees`). `SrvA.Denotes a n fms`: the stored ADF `a` has a well-formed table and one
+valid handle per statement with the Boolean function of its condition. `SrvA.storedI3`: the stored
+vectors (`AcAndGraph.ac`) read as three-valued interpretations. PARTIAL in one respect only:
+`ServerAdf.solveAdf` runs `StableNogood` through `NgModel.ngAll`, whose loop is a `partial def` —
+opaque to the kernel — so the statement about `solveAdf` itself covers five strategies
+(`stored_answers_exact_driver_model_partial`) and the sixth is proved for the fuel-based model of the
+same loop (C05's `SM.ngSearch`), under the hypothesis "the search halted within the bound" (as in
+C15), which holds for every large bound (`stored_answers_exact_every_large_bound`); that the two
+models of the loop give the same vectors is replayed by evaluation below. -/
+
+/-- the storage round trip works for ANY well-formed stored table (also one adopted from biodivine's
+dump): `Bdd::from(Vec<BddNode>)` gives a well-formed store with exactly that table -/
+theorem rebuild_any_wellformed_table (ns : Array Node) (w : TableWF ns) : WF (rebuild ns) ∧ (rebuild ns).nodes = ns :=
+  SrvA.rebuild_table ns w
+
+/-- naive parsing: what a successful parse task stores denotes the conditions of the submitted code
+(`ServerAdf.conditions`: per statement the last `ac` fact, falsum without one) -/
+theorem naive_parse_denotes_code (key code : String) (a : SAdf) (r : SRes) (h : parseNaive key code = .ok (a, r))
+    (hn : a.names.length ≤ VBOT) :
+    ∃ fms, conditions code = .ok (a.names, fms) ∧ SrvA.Denotes a a.names.length fms :=
+  SrvA.parseNaive_denotes key code a r h hn
+
+/-- `solveAdfF` is the driver's model wherever that model is transparent -/
+theorem solve_model_agrees (fuel : Nat) (a : SAdf) (s : Strategy) (h : s ≠ .stableNogood) :
+    SrvA.solveAdfF fuel a s = solveAdf a s := SrvA.solveAdfF_eq fuel a s h
+
+/-- since the server model's StableNogood arm runs the fuel-based search of C05 (bound 10^6), the
+bound-parametric function at that bound IS the model the driver runs, for ALL six strategies -/
+theorem solve_model_is_bound_instance (a : SAdf) (s : Strategy) : SrvA.solveAdfF 1000000 a s = solveAdf a s := by
+  cases s <;> rfl
+
+/-- hence the exactness statement holds of `ServerAdf.solveAdf` itself for every strategy, under the
+halting hypothesis of its nogood search (vacuous for the other five strategies) -/
+theorem stored_answers_exact_driver_model (a : SAdf) (n : Nat) (fms : List Fm) (s : Strategy)
+    (h : SrvA.Denotes a n fms) (hh : SrvA.strategyHalts 1000000 a s = true) :
+    ∃ res, solveAdf a s = .ok res ∧
+      (SrvA.storedI3 res).Perm (Cli.specSection n (CliF.tablesOf n fms) (SrvA.secOf s)) := by
+  have := SrvA.stored_answers_exact_any_table 1000000 a n fms s h hh
+  rwa [solve_model_is_bound_instance] at this
+
+/-- **stored_answers_exact** (naive parsing, from the submitted text): if the parse task stored `a`
+for `code`, then for EVERY strategy the solve task run on the ADF rebuilt from what was stored
+succeeds and stores — as a multiset of three-valued interpretations — exactly the specification's
+answer for the conditions of the submitted code; `StableNogood`: provided its search halted within
+the bound -/
+theorem stored_answers_exact (fuel : Nat) (key code : String) (a : SAdf) (r : SRes) (s : Strategy)
+    (h : parseNaive key code = .ok (a, r)) (hn : a.names.length ≤ VBOT)
+    (hh : SrvA.strategyHalts fuel a s = true) :
+    ∃ fms res, conditions code = .ok (a.names, fms) ∧ SrvA.solveAdfF fuel a s = .ok res ∧
+      (SrvA.storedI3 res).Perm
+        (Cli.specSection a.names.length (CliF.tablesOf a.names.length fms) (SrvA.secOf s)) :=
+  SrvA.stored_answers_exact fuel key code a r s h hn hh
+
+/-- **stored_answers_exact, any stored table** (hybrid parsing as well): the same for ANY stored ADF
+that denotes the conditions — a well-formed table whose `ac` handles have the conditions' functions,
+which is what the run-time checks of the adopted table establish (`wfCheck`, `isoCheck` / the semantic
+comparison `storedAdfOK`) -/
+theorem stored_answers_exact_any_table (fuel : Nat) (a : SAdf) (n : Nat) (fms : List Fm) (s : Strategy)
+    (h : SrvA.Denotes a n fms) (hh : SrvA.strategyHalts fuel a s = true) :
+    ∃ res, SrvA.solveAdfF fuel a s = .ok res ∧
+      (SrvA.storedI3 res).Perm (Cli.specSection n (CliF.tablesOf n fms) (SrvA.secOf s)) :=
+  SrvA.stored_answers_exact_any_table fuel a n fms s h hh
+
+/-- the hypothesis about the bound can always be met: from some bound on the search halts and the
+stored answers are exact — every strategy, nothing assumed -/
+theorem stored_answers_exact_every_large_bound (a : SAdf) (n : Nat) (fms : List Fm) (s : Strategy)
+    (h : SrvA.Denotes a n fms) :
+    ∃ F0, ∀ fuel, F0 ≤ fuel → SrvA.strategyHalts fuel a s = true ∧
+      ∃ res, SrvA.solveAdfF fuel a s = .ok res ∧
+        (SrvA.storedI3 res).Perm (Cli.specSection n (CliF.tablesOf n fms) (SrvA.secOf s)) :=
+  SrvA.stored_answers_exact_every_large_bound a n fms s h
+
+/-- **the model the driver runs**, the five strategies without nogood search, any stored table: no
+hypothesis about bounds. Missing for `StableNogood`: `ServerAdf.solveAdf` calls `NgModel.ngAll`
+(`partial def`); with `SM.ngSearch .simple fuel` in that arm `solveAdf` would be `SrvA.solveAdfF fuel`
+and `stored_answers_exact_any_table` would apply verbatim -/
+theorem stored_answers_exact_driver_model_partial (a : SAdf) (n : Nat) (fms : List Fm) (s : Strategy)
+    (h : SrvA.Denotes a n fms) (hs : s ≠ .stableNogood) :
+    ∃ res, solveAdf a s = .ok res ∧
+      (SrvA.storedI3 res).Perm (Cli.specSection n (CliF.tablesOf n fms) (SrvA.secOf s)) :=
+  SrvA.solveAdf_answers_exact_partial a n fms s h hs
+
+/-- … and from the submitted text (naive parsing → storage → rebuild → `solveAdf`) -/
+theorem stored_answers_exact_naive_driver_model_partial (key code : String) (a : SAdf) (r : SRes) (s : Strategy)
+    (h : parseNaive key code = .ok (a, r)) (hn : a.names.length ≤ VBOT) (hs : s ≠ .stableNogood) :
+    ∃ fms res, conditions code = .ok (a.names, fms) ∧ solveAdf a s = .ok res ∧
+      (SrvA.storedI3 res).Perm
+        (Cli.specSection a.names.length (CliF.tablesOf a.names.length fms) (SrvA.secOf s)) := by
+  obtain ⟨fms, hc, hd⟩ := SrvA.parseNaive_denotes key code a r h hn
+  obtain ⟨res, h1, h2⟩ := SrvA.solveAdf_answers_exact_partial a _ fms s hd hs
+  exact ⟨fms, res, hc, h1, h2⟩
+
+/-- **the same at the level of the definitions** (`SrvA.PropAnswer`): ground stores the least fixpoint
+of Γ, complete stores every fixpoint of Γ exactly once, the four stable strategies store every stable
+model exactly once — for the Boolean functions `fms.map Fm.sem` of the submitted conditions -/
+theorem stored_answers_definitional (fuel : Nat) (a : SAdf) (n : Nat) (fms : List Fm) (s : Strategy)
+    (h : SrvA.Denotes a n fms) (hh : SrvA.strategyHalts fuel a s = true) :
+    ∃ res, SrvA.solveAdfF fuel a s = .ok res ∧ SrvA.PropAnswer n (fms.map Fm.sem) s (SrvA.storedI3 res) :=
+  SrvA.stored_answers_definitional fuel a n fms s h hh
+
+/-! ### non-vacuity of section 6 -/
+
+/-- the stored ADF of `s(a).s(b).ac(a,neg(b)).ac(b,neg(a)).` (table `tab1`, handles 4 and 5) denotes
+its conditions -/
+theorem denotes1 : SrvA.Denotes { names := ["a", "b"], nodes := tab1, ac := [4, 5] } 2 [.not (.atom 1), .not (.atom 0)] where
+  table := hyp1.wf
+  len := rfl
+  flen := rfl
+  atoms := by
+    intro φ hφ
+    simp at hφ
+    rcases hφ with h | h <;> subst h <;> simp [NConc.atomsLt]
+  den := by
+    intro i t f ht hf
+    have hi : i = 0 ∨ i = 1 := by
+      have := (List.getElem?_eq_some_iff.mp ht).1
+      simp at this; omega
+    rcases hi with h | h <;> subst h <;> simp at ht hf <;> subst ht <;> subst hf
+    · refine ⟨by decide, fun σ => ?_⟩
+      simp [eval, evalF, tab1, Fm.sem]
+    · refine ⟨by decide, fun σ => ?_⟩
+      simp [eval, evalF, tab1, Fm.sem]
+
+/-- hence the driver's model stores, for `Stable`, exactly the two stable models `a¬b`, `¬a b` (the
+specification's answer, evaluated by the kernel) — a statement with content in both directions -/
+example : ∃ res, solveAdf { names := ["a", "b"], nodes := tab1, ac := [4, 5] } .stable = .ok res ∧
+    (SrvA.storedI3 res).Perm [[some true, some false], [some false, some true]] := by
+  obtain ⟨res, h1, h2⟩ := stored_answers_exact_driver_model_partial _ 2 _ .stable denotes1 (by decide)
+  refine ⟨res, h1, ?_⟩
+  have e : Cli.specSection 2 (CliF.tablesOf 2 [.not (.atom 1), .not (.atom 0)]) (SrvA.secOf .stable) =
+      [[some true, some false], [some false, some true]] := by decide
+  rw [e] at h2
+  exact h2
+
+/-- … and for `Complete` additionally the all-undecided interpretation -/
+example : ∃ res, solveAdf { names := ["a", "b"], nodes := tab1, ac := [4, 5] } .complete = .ok res ∧
+    (SrvA.storedI3 res).Perm [[none, none], [some true, some false], [some false, some true]] := by
+  obtain ⟨res, h1, h2⟩ := stored_answers_exact_driver_model_partial _ 2 _ .complete denotes1 (by decide)
+  refine ⟨res, h1, ?_⟩
+  have e : Cli.specSection 2 (CliF.tablesOf 2 [.not (.atom 1), .not (.atom 0)]) (SrvA.secOf .complete) =
+      [[none, none], [some true, some false], [some false, some true]] := by decide
+  rw [e] at h2
+  exact h2
+
+/-! replay by evaluation (the store's hash tables do not reduce in the kernel): the parse task on that
+code stores `tab1` with handles 4, 5; the transparent model `solveAdfF` and the driver's `solveAdf`
+store the same vectors for all six strategies, `StableNogood` included, and its search halts -/
+def code1 : String := "s(a).s(b).ac(a,neg(b)).ac(b,neg(a))."
+def allSix : List Strategy := [.ground, .complete, .stable, .stableCountingA, .stableCountingB, .stableNogood]
+
+#guard (match parseNaive "k" code1 with
+  | .ok (a, _) => a.names == ["a", "b"] && a.nodes == tab1 && a.ac == [4, 5]
+  | .error _ => false)
+#guard (match parseNaive "k" code1 with
+  | .ok (a, _) => allSix.all (fun s =>
+      SrvA.strategyHalts 1000000 a s &&
+      (match SrvA.solveAdfF 1000000 a s, solveAdf a s with
+       | .ok r, .ok r' => r.map AcG.ac == r'.map AcG.ac
+       | _, _ => false))
+  | .error _ => false)
+#guard (match parseNaive "k" code1 with
+  | .ok (a, _) => (match solveAdf a .stableNogood with | .ok r => r.map AcG.ac == [[1, 0], [0, 1]] | .error _ => false)
+  | .error _ => false)
 
 end C16
